@@ -1,10 +1,25 @@
 /-
   C11 — source spans delimit exactly the text of each datum.
-  Open: `C11_span_ok` (containment, ordering and the re-parse clause for every reachable sub-datum).
+  Proved in LexprModel/Proofs/Spans.lean (with SpansPos, SpansInv, SpansRel, SpansTwin; imported
+  here; namespace Lexpr.Parse.Spans), for every input, option set and source:
+   * `C11_span_bounds` — the span of a returned datum is ⟨posOf p, posOf q⟩ for prefixes p < q of the
+     input, p ending exactly where the trivia before the datum ends and q where the parser stopped:
+     the span lies inside the input and starts at the datum's first non-trivia byte;
+     `C11_span_nonempty`; `C11_posOf_mono`, `C11_posOf_inj` (positions order as offsets do);
+   * `C11_children_inside`, `C11_well_nested` — recursively, every element span (cars, dotted tail,
+     vector entries) is a real non-empty span inside its parent, siblings are ordered and do not
+     overlap;
+   * `C11_list_iter_spans`, `C11_vector_iter_spans` — what the datum iterators yield at every depth
+     satisfies the same, and the "badly shaped span information" expect never fires;
+   * `C11_quote_head_span` — for a quote shorthand the head's span is exactly the shorthand characters;
+   * `C11_sources`, `C11_sources_slice_io` — identical datums *and span trees* from different sources.
+  PARTIAL: the re-parse clause (the text a span covers reads back as the datum's value) is not proved;
+  it is carried by the span correspondence on all sources and the re-parse oracle.
   Proved here: the span synthesis of quote shorthands, and that the reader's position does not depend
   on the input source (which is what makes spans equal across sources once values are).
 -/
 import LexprModel.Parse
+import LexprModel.Proofs.Spans
 namespace Lexpr
 namespace Parse
 
